@@ -55,7 +55,7 @@ def configs(tier):
         out.append(dict(key=f"sizes={s},C0={c0}", sizes=list(s), chunk=c0, cost=len(common.all_tuples(s)) * 2))
     # the public path valid_alignments(continuum) = array building + kernel, for dissimilarities that DECLARE more categories than the
     # continuum uses (labels a..d declared, b and d used): candidates against the unit-to-unit form d() of the same dissimilarity
-    for dk in ("ordinal", "precomputed", "combined-ordinal", "levenshtein"):
+    for dk in ("ordinal", "precomputed", "combined-ordinal", "levenshtein", "combined-symbolic-weights"):
         for s in [(2, 1), (1, 1, 1)]:
             out.append(dict(key=f"valid_alignments,declared-superset,{dk},sizes={s}", sizes=list(s), declared=dk, chunk=None, cost=60))
     # IEEE mode (symx.fp): the same kernel source on binary32 pair values / delta_empty with numba's width rules - what the
@@ -183,6 +183,10 @@ def harness(cfg, ns):
         elif dk == "precomputed":
             M = real_np.array([[0, 1, 4, 9], [1, 0, 2, 5], [4, 2, 0, 3], [9, 5, 3, 0]], dtype=float) / 4.0
             D = ds.PrecomputedCategoricalDissimilarity(SortedSet(declared), ns.np.array(M, dtype=ns.np.float32), delta_empty=de)
+        elif dk == "combined-symbolic-weights":
+            # the default combined dissimilarity with ANY weights alpha, beta >= 0 (exactly 0 included: a weight of 0 is where shortcuts live)
+            w_alpha, w_beta = ctx.fresh("alpha", lo=0), ctx.fresh("beta", lo=0)
+            D = ds.CombinedCategoricalDissimilarity(alpha=w_alpha, beta=w_beta, delta_empty=de)
         else:
             D = ds.CombinedCategoricalDissimilarity(alpha=1, beta=2, delta_empty=de, cat_dissim=ds.OrdinalCategoricalDissimilarity(declared, delta_empty=de))
         c = co.Continuum()
@@ -198,9 +202,12 @@ def harness(cfg, ns):
                 uid += 1
 
         def realize(m):
-            return dict(kind="declared", declared=dk, sizes=list(sizes), de=common.frs(mval(m, de)))
+            r = dict(kind="declared", declared=dk, sizes=list(sizes), de=common.frs(mval(m, de)))
+            if dk == "combined-symbolic-weights":
+                r.update(alpha=common.frs(mval(m, w_alpha)), beta=common.frs(mval(m, w_beta)))
+            return r
         ctx.notes["realize"] = realize
-        ctx.notes["inputs"] = [de]
+        ctx.notes["inputs"] = [de] + ([w_alpha, w_beta] if dk == "combined-symbolic-weights" else [])
         ctx.notes["scales"] = [de]
         dis, al = D.valid_alignments(c)
         got = {}
@@ -402,6 +409,11 @@ def _replay_declared(case):
         elif dk == "precomputed":
             M = np.array([[0, 1, 4, 9], [1, 0, 2, 5], [4, 2, 0, 3], [9, 5, 3, 0]], dtype=np.float32) / 4.0
             D = pa.PrecomputedCategoricalDissimilarity(SortedSet(declared), M, delta_empty=de)
+        elif dk == "combined-symbolic-weights":
+            al_, be_ = float(Fraction(case.get("alpha", "1"))), float(Fraction(case.get("beta", "1")))
+            if al_ == 0 and be_ == 0:
+                al_ = 2.5
+            D = pa.CombinedCategoricalDissimilarity(alpha=al_, beta=be_, delta_empty=de)
         else:
             D = pa.CombinedCategoricalDissimilarity(alpha=1, beta=2, delta_empty=de, cat_dissim=pa.OrdinalCategoricalDissimilarity(declared, delta_empty=de))
         c = pa.Continuum()
